@@ -191,6 +191,58 @@ GET_RAW = [
 ]
 
 
+def shard_merge_streams(st, wd):
+    """Several result documents (merge_across / matrix_merge) with the
+    automatic output format: the FIRST document's style decides between a
+    YAML stream and JSON lines, and either reloads to the merged documents."""
+    block = "a: 1\nl: [x]\n"
+    flow = '{"b": 2}\n'
+    pairs = [
+        ("---\n" + block + "---\n" + flow, "---\nc: 3\n---\n" + '{"d": 4}\n',
+         "yaml", [{"a": 1, "l": ["x"], "c": 3}, {"b": 2, "d": 4}]),
+        ("---\n" + flow + "---\n" + block, "---\n" + '{"d": 4}\n' + "---\nc: 3\n",
+         "json", [{"b": 2, "d": 4}, {"a": 1, "l": ["x"], "c": 3}]),
+        ("---\n" + block + "---\n" + block, "---\nc: 3\n---\nc: 4\n",
+         "yaml", [{"a": 1, "l": ["x"], "c": 3}, {"a": 1, "l": ["x"], "c": 4}]),
+    ]
+    for ltext, rtext, fmt, want in pairs:
+        lfile = os.path.join(wd, "ls.yaml")
+        rfile = os.path.join(wd, "rs.yaml")
+        cli.write(lfile, ltext)
+        cli.write(rfile, rtext)
+        for delivery in ("files", "rhs-stdin"):
+            argv = ["--multi-doc-mode=merge_across"]
+            if delivery == "files":
+                res = cli.run("yaml-merge", argv + ["--nostdin", lfile,
+                                                    rfile])
+            else:
+                res = cli.run("yaml-merge", argv + [lfile, "-"], stdin=rtext)
+            case = {"tool": "yaml-merge", "lhs": ltext, "rhs": rtext,
+                    "argv": argv, "delivery": delivery}
+            note(st, "yaml-merge", res, ("streams", fmt, delivery), "stream")
+            if crashed(st, "yaml-merge", res, case):
+                continue
+            if res.code != 0:
+                st.fail("yaml-merge|streams|exit-status", case, 0,
+                        "%s %s" % (res.code, res.err[:120]))
+                continue
+            lines = [l for l in res.out.split("\n") if l.strip()]
+            is_json = bool(lines) and all(l.lstrip().startswith("{")
+                                          for l in lines)
+            try:
+                if is_json:
+                    got = [json.loads(l) for l in lines]
+                else:
+                    got = [_plain(d) for d in corpus.load_all(res.out)]
+            except Exception as ex:       # pylint: disable=broad-except
+                got = "unreadable: %s" % type(ex).__name__
+            if is_json != (fmt == "json") or got != want:
+                st.fail("yaml-merge|streams|format-or-content", case,
+                        "%s: %r" % (fmt, want),
+                        "%s: %r" % ("json" if is_json else "yaml",
+                                    res.out[:300]))
+
+
 def shard_get_empty(st, wd):
     """A document without any node: nothing can match, so every query ends
     with a non-zero status and prints nothing - from a file and from standard
@@ -220,6 +272,7 @@ def shard_get_empty(st, wd):
 
 def shard_get_raw(st, wd):
     shard_get_empty(st, wd)
+    shard_merge_streams(st, wd)
     for text, queries in GET_RAW:
         fname = os.path.join(wd, "raw.yaml")
         cli.write(fname, text)
@@ -726,7 +779,8 @@ def _plain(node):
         return {str(k): _plain(v) for k, v in node.items()}
     if isinstance(node, list):
         return [_plain(v) for v in node]
-    return corpus.plain_scalar(node)
+    val = corpus.plain_scalar(node)
+    return val[1] if isinstance(val, tuple) and len(val) == 2 else val
 
 
 def shard_paths_multi(st, wd):
